@@ -11,6 +11,11 @@ use rosu_pp::{
     taiko::TaikoGradualDifficulty, verif::StrainsVec, Beatmap, Difficulty, GradualPerformance,
 };
 
+// the hooked crate reports to `rosu_pp_verif_view_sink` (harness/src/viewsink.rs): keep the harness
+// library linked so the symbol is defined
+#[allow(dead_code)]
+const VIEW_SINK: fn(u8, u8, usize, &[bool]) = rosu_verif::viewsink::rosu_pp_verif_view_sink;
+
 const OSU_MAP: &str = "osu file format v14
 
 [General]
